@@ -3,7 +3,7 @@
 From Coq Require Import List NArith ZArith Bool.
 Import ListNotations.
 Require Import Verif.Lib.Wire Verif.Lib.Text Verif.Lib.Utf8 Verif.Lib.Percent
-               Verif.Gen.Facts_C17 Verif.Model.C17 Verif.Proofs.C17.
+               Verif.Gen.Facts_C17 Verif.Model.C17 Verif.Gen.Code_C17 Verif.Proofs.C17 Verif.Proofs.C17_gen.
 Open Scope N_scope.
 
 (* extra path elements: split the produced suffix on '/', percent-decode, UTF-8 decode:
@@ -259,3 +259,90 @@ Theorem C17_resource_url_x_decodes : forall c e rs names els o vroot u,
     /\ (els <> [] -> exists ts, spec_elements els = Some ts /\ decode_segments sfx = Some ts).
 Proof. exact resource_url_x_decodes. Qed.
 Print Assumptions C17_resource_url_x_decodes.
+
+(* ================= the program REGENERATED from the source on this run (Gen/Code_C17.v) ================= *)
+(* it equals the reference model ... *)
+Theorem C17_gen_partial_application_url_is_model : forall e s h p,
+  gen_partial_application_url e s h p = partial_application_url e s h p.
+Proof. exact gen_partial_application_url_is_model. Qed.
+Print Assumptions C17_gen_partial_application_url_is_model.
+
+Theorem C17_gen_parse_url_overrides_is_model : forall e o, gen_parse_url_overrides e o = parse_url_overrides e o.
+Proof. exact gen_parse_url_overrides_is_model. Qed.
+Print Assumptions C17_gen_parse_url_overrides_is_model.
+
+Theorem C17_gen_urlencode_is_model : forall l, gen_urlencode l = urlencode l.
+Proof. exact gen_urlencode_is_model. Qed.
+Print Assumptions C17_gen_urlencode_is_model.
+
+Theorem C17_gen_url_quote_is_model : forall safe v, gen_url_quote safe v = url_quote safe v.
+Proof. exact gen_url_quote_is_model. Qed.
+Print Assumptions C17_gen_url_quote_is_model.
+
+Theorem C17_gen_quote_plus_is_model : forall v, gen_quote_plus quote_plus_default_safe v = quote_plus v.
+Proof. exact gen_quote_plus_is_model. Qed.
+Print Assumptions C17_gen_quote_plus_is_model.
+
+Theorem C17_gen_route_path_is_model : forall c e rs n els o kw,
+  gen_route_path c e rs n els o kw = route_path c e rs n els o kw.
+Proof. exact gen_route_path_is_model. Qed.
+Print Assumptions C17_gen_route_path_is_model.
+
+Theorem C17_gen_resource_path_is_model : forall c e rs names els o vroot rn,
+  gen_resource_path c e rs names els o vroot rn = resource_path_x c e rs names els o vroot rn.
+Proof. exact gen_resource_path_is_model. Qed.
+Print Assumptions C17_gen_resource_path_is_model.
+
+Theorem C17_gen_static_path_is_model : forall e rs regs path o kw,
+  gen_static_path e rs regs path o kw = static_path_x e rs regs path o kw.
+Proof. exact gen_static_path_is_model. Qed.
+Print Assumptions C17_gen_static_path_is_model.
+
+Theorem C17_gen_current_route_path_is_model : forall c e rs rname matched md gt els o kw,
+  gen_current_route_path c e rs rname matched md gt els o kw = current_route_path c e rs rname matched md gt els o kw.
+Proof. exact gen_current_route_path_is_model. Qed.
+Print Assumptions C17_gen_current_route_path_is_model.
+
+(* ... so the property theorems hold of the regenerated program itself *)
+Theorem C17_gen_query_roundtrip : forall l s ps,
+  Forall wf_pair l -> gen_urlencode l = Ok s -> spec_pairs l = Some ps -> parse_qsl s = Some ps /\ ~ In 35 s.
+Proof. exact gen_query_roundtrip. Qed.
+Print Assumptions C17_gen_query_roundtrip.
+
+Theorem C17_gen_urlencode_chars : forall l s,
+  Forall wf_pair l -> gen_urlencode l = Ok s -> Forall qc s /\ pct_ok s = true.
+Proof. exact gen_urlencode_chars. Qed.
+Print Assumptions C17_gen_urlencode_chars.
+
+Theorem C17_gen_url_quote_roundtrip : forall safe v q a,
+  ascii_set safe -> is_safe safe 37 = false -> wf_val v ->
+  gen_url_quote safe v = Ok q -> spec_text v = Some a -> unquote_text q = Some a.
+Proof. exact gen_url_quote_roundtrip. Qed.
+Print Assumptions C17_gen_url_quote_roundtrip.
+
+Theorem C17_gen_overrides_honoured : forall e s h p,
+  gen_partial_application_url e s h p = rlet sn := quoted_script_name e in Ok (spec_authority e s h p ++ sn).
+Proof. exact gen_overrides_honoured. Qed.
+Print Assumptions C17_gen_overrides_honoured.
+
+Theorem C17_gen_parse_url_overrides_spec : forall e o app qs fr,
+  wf_query (o_query o) -> wf_anchor (o_anchor o) ->
+  gen_parse_url_overrides e o = Ok (app, qs, fr) ->
+  parse_app e o = Ok app
+  /\ (exists qt, ((qs = [] /\ qt = []) \/ qs = 63 :: qt) /\ ~ In 35 qt /\ Forall qc qt /\ query_decodes (o_query o) qt)
+  /\ (exists f, ((fr = [] /\ f = []) \/ fr = 35 :: f) /\ Forall qc f
+                /\ (forall t, spec_anchor (o_anchor o) = Some t -> unquote_text f = Some t)).
+Proof. exact gen_parse_url_overrides_spec. Qed.
+Print Assumptions C17_gen_parse_url_overrides_spec.
+
+Theorem C17_gen_route_path_is_url_minus_authority : forall c e rs n els o kw u,
+  o_app_url o = None -> route_url c e rs n els o kw = Ok u ->
+  exists p, gen_route_path c e rs n els o kw = Ok p /\ u = host_part e o ++ p.
+Proof. exact gen_route_path_is_url_minus_authority. Qed.
+Print Assumptions C17_gen_route_path_is_url_minus_authority.
+
+Theorem C17_gen_current_route_path_is_url_minus_authority : forall c e rs rname matched md gt els o kw u,
+  o_app_url o = None -> current_route_url c e rs rname matched md gt els o kw = Ok u ->
+  exists p, gen_current_route_path c e rs rname matched md gt els o kw = Ok p /\ u = host_part e o ++ p.
+Proof. exact gen_current_route_path_is_url_minus_authority. Qed.
+Print Assumptions C17_gen_current_route_path_is_url_minus_authority.
